@@ -10,16 +10,21 @@ import XdsVerif.Driver.Handlers
 import XdsVerif.Driver.Decode
 import XdsVerif.Driver.Conc
 import XdsVerif.Driver.Sys
+import XdsVerif.Driver.Flow
 open Lean XdsVerif.Driver
 
 def dispatch (p : String) (j : Json) : Except String Verdict :=
+  if jStrD j "op" "" = "flow" then Flow.check p j else
   match p with
   | "C01" => Hist.check "C01" j
   | "C02" => Hist.check "C02" j
   | "C03" => Hist.check "C03" j
   | "C04" => Hist.check "C04" j
   | "C19" => Hist.check "C19" j
-  | "C05" => Conc.check "C05" j
+  | "C05" => match jStrD j "op" "" with
+    | "sys" => Sys.check "C05" j
+    | "hist" => Hist.check "C05" j
+    | _ => Conc.check "C05" j
   | "C06" => Conc.check "C06" j
   | "C07" => if jStrD j "op" "" = "sys" then Sys.check "C07" j else Conc.check "C07" j
   | "C08" => C08.check j
